@@ -16,7 +16,9 @@ CHECK = {'pkg': '.',
          'equals x (version recorded), re-encode byte-identical when no map has >1 entry, else same length and equal decode; b1==R is only '
          'measured (classes canon:*); O3 prepEncoder.length==realEncoder.off, empty push stacks, guard bytes untouched, encode() agrees; O4 '
          'request framing (size, key, version, correlation id, client id, tagged byte of header v2) parsed by the harness\'s reader and '
-         'decodeRequest. part records: hand-written models of MessageSet magic 0/1 (plain and gzip/snappy/lz4 wrappers, absolute/relative inner '
+         'decodeRequest; O5 the version stamps that sub-structures carry (fetchRequestBlock, AclFilter: set by the public builders at call time and '
+         'by decode) are replaced in a deep copy and encode at the same version must give the same bytes (a value built through AddBlock before '
+         'Version was set round-trips too). part records: hand-written models of MessageSet magic 0/1 (plain and gzip/snappy/lz4 wrappers, absolute/relative inner '
          'offsets), RecordBatch v2 (5 codecs, 13 gzip levels, control/transactional/LogAppendTime, nil/empty/long keys and values, 0..3 headers, '
          'negative timestamp deltas), nested in ProduceRequest v0-7 and FetchResponse v0-11, and message batches pushed through '
          'produceSet.buildRequest for 4 Kafka versions; the harness\'s own parser (size prefixes, IEEE/Castagnoli CRC, varints, per-record length, '
